@@ -4,10 +4,10 @@ import SleapVerif.Model.Pipelines
 Driver for C18 (runs the model at `R := Rat`).
 
 `sample <fw> <mt> <isRgb> <maxH> <maxW> <cfgMaxH|-1> <cfgMaxW|-1> <scale> <maxStride> <cropH> <cropW>
-        <anchor|-1> <maxInst> <alias> <cmSigma> <cmStride> <pafSigma> <pafStride> <edges: n (u v)*>
-        <h> <w> <c> <k> <insts: n (m (x y)*)*>`
+        <anchor|-1> <maxInst> <alias> <user_instances_only> <cmSigma> <cmStride> <pafSigma> <pafStride> <edges: n (u v)*>
+        <h> <w> <c> <k> <labelled: n (is_predicted m (x y)*)*>`   (the raw labelled frame, file order)
   → `ok img=<sexpr>;shape=c h w;n=<num>;rank=<r>;inst=<ll>;cen=<l>;bbox=<l>;eff=<q> <q>;tgt=<targets>`
-`count <fw> <mt> <insts>` → `ok <n>` | `raise` (samples a framework yields for one labelled frame).
+`count <fw> <mt> <user_instances_only> <labelled>` → `ok <n>` | `raise` (samples a framework yields for one labelled frame).
 `dp <block> …` → the block model's output in the same vocabulary; `dp defaults` → the table.
 -/
 open SleapVerif SleapVerif.Proto SleapVerif.Pipelines
@@ -57,6 +57,7 @@ def pt : P (Pt Rat) := do
   let x ← orat; let y ← orat
   pure (match x, y with | some a, some b => some (a, b) | _, _ => none)
 def insts : P (List (Inst Rat)) := listOf (listOf pt)
+def labelled : P (Labelled Rat) := listOf (do let p ← bool; let i ← listOf pt; pure (p, i))
 def edges : P (List (Nat × Nat)) := listOf (do let u ← nat; let v ← nat; pure (u, v))
 
 def mtOf : String → Option MT
@@ -71,14 +72,14 @@ def sampleLine : P String := do
   let fw ← tok; let mt ← tok
   let isRgb ← bool; let maxH ← nat; let maxW ← nat; let cH ← onat; let cW ← onat
   let scale ← rat; let ms ← nat; let cropH ← nat; let cropW ← nat; let anchor ← onat
-  let maxInst ← nat; let alias ← bool
+  let maxInst ← nat; let alias ← bool; let uio ← bool
   let cmS ← rat; let cmSt ← nat; let pS ← rat; let pSt ← nat; let ed ← edges
-  let h ← nat; let w ← nat; let c ← nat; let k ← nat; let ii ← insts
+  let h ← nat; let w ← nat; let c ← nat; let k ← nat; let ll ← labelled
   match fwOf fw, mtOf mt with
   | some fw, some mt =>
     let cfg : Cfg Rat := { mt, isRgb, maxH, maxW, cfgMaxH := cH, cfgMaxW := cW, scale, maxStride := ms,
                            cropH, cropW, anchor, maxInstances := maxInst, aliasing := alias }
-    let fr : Frame Rat := { h, w, c, insts := ii }
+    let fr : Frame Rat := ({ h, w, c, labelled := ll } : RawFrame Rat).seenBy fw mt uio
     let hd : Heads Rat := { cmSigma := cmS, cmStride := cmSt, pafSigma := pS, pafStride := pSt, edges := ed }
     let s := sampleOf numRat fw cfg fr k
     let raw := (c, h, w)
@@ -134,10 +135,10 @@ def dpLine : P String := do
   | _ => failure
 
 def countLine : P String := do
-  let fw ← tok; let mt ← tok; let ii ← insts
+  let fw ← tok; let mt ← tok; let uio ← bool; let ll ← labelled
   match fwOf fw, mtOf mt with
   | some fw, some mt =>
-    pure (match sampleCount fw mt ({ h := 0, w := 0, c := 0, insts := ii } : Frame Rat) with
+    pure (match sampleCount fw mt (({ h := 0, w := 0, c := 0, labelled := ll } : RawFrame Rat).seenBy fw mt uio) with
       | some n => s!"ok {n}"
       | none => "raise")
   | _, _ => failure
